@@ -25,9 +25,24 @@ def run_check(prop: str, tier: str = "quick", seed: int = 0, write: bool = True,
     ctx = Ctx(prog, prop, tier, seed, quiet)
     ctx.assumptions = list(spec.get("assumptions", []))
     try:
+        from . import rules_algebra as _RA
+
+        _RA.THOROUGH["on"] = tier == "thorough"
         spec["fn"](ctx)
-        if tier == "thorough" and "thorough" in spec:
-            spec["thorough"](ctx)
+        if tier == "thorough" and overrides is None:
+            from .selftest import run_variants
+
+            sv = run_variants(props=[prop])
+            ctx.extra["variant_corpus"] = {
+                "breaking_variants_run": sv["breaking_expected"],
+                "breaking_variants_reported": sv["breaking_killed"],
+                "neutral_variants_run": sv["neutral_runs"],
+                "neutral_variants_silent": sv["neutral_silent"],
+                "stale": sv["stale"],
+                "problems": [{k: f[k] for k in ("id", "prop", "problem")} for f in sv["failures"]],
+                "note": "each variant is the current source of one module with one edit applied in memory; a surviving breaking variant or a "
+                "noisy neutral variant is a weakness of the checker and is listed here - it does not change the verdict on the tree",
+            }
     except AnalysisError as e:
         ctx.cannot_decide("engine", "-", "-", str(e))
     except RecursionError as e:  # pragma: no cover
